@@ -23,8 +23,10 @@ META = dict(
           "the initial one; distinct = distinct key"),
     bound=dict(quick="all histories of <= 3 events over the expansion alphabet (every state reached by <= 2 events "
                      "is expanded with every event of the full probe alphabet and digested)",
-               thorough="closure of the reachable set under the expansion alphabet (or the reported cap), "
-                        "second representatives validated, shortest history of every state replayed in a fresh interpreter"),
+               thorough="all histories of <= 4 events over the expansion alphabet, plus closure of the loader state space "
+                        "(one read, the direct init and the calculators of every group) with all probe events observed in "
+                        "every state; closure of the memo sub-alphabet; second representatives validated; sampled "
+                        "histories replayed in fresh interpreters"),
     assumptions=["merging by heap-shape key is an abstraction; it is cross-checked on a second representative of "
                  "every key that has one (observations, successor keys, digest) - not a bisimulation proof",
                  "IonSet.ionset and the per-atom _xray memo are excluded from the key (pure memo caches)",
@@ -445,10 +447,24 @@ def run(ctx):
         ex.oracle = oracle
         runs.append(("depth3-full", ex))
     else:
-        cap = int(os.environ.get("VERIF_C09_CAP", "0")) or None
-        ex = histmc.Explorer(model, ctx.jobs, ctx.log).run(depth=None, on_state=oracle, state_cap=cap)
+        # (a) all histories of <= 4 events over the expansion alphabet (probe alphabet at levels 0-1)
+        ex = histmc.Explorer(model, ctx.jobs, ctx.log).run(depth=4, on_state=oracle, probe_levels=2)
         ex.oracle = oracle
-        runs.append(("closure-full", ex))
+        runs.append(("depth4-full", ex))
+        # (b) closure of the loader state space proper: one read through the element, the direct init and the
+        # calculators of every group (imports and the other access routes are covered by (a)); the measured
+        # full-alphabet space is 22 / 231 / 1 534 / 7 041 / ... states at depth 1 / 2 / 3 / 4 and does not close
+        # in hours, mostly because the nine independent imports multiply it by up to 2^9
+        names = set(n for n in (e.name for e in model.events())
+                    if n.startswith("init:") or n.startswith("calc:") or n.startswith("print:")
+                    or (n.startswith("get:el:") and n.split(":")[2] in [g[1][0] for g in GROUPS])
+                    or n == "get:iso:neutron_activation")
+        acc.info["max_closure_alphabet"] = len(names)
+        ex = histmc.Explorer(model, ctx.jobs, ctx.log).run(depth=None, expand_names=names, on_state=oracle,
+                                                           state_cap=int(os.environ.get("VERIF_C09_CAP", "0")) or None)
+        ex.oracle = oracle
+        ex.expand_names = names
+        runs.append(("closure-loaders", ex))
     # memo-cache sub-alphabet (colliding symbols) with a refined key
     memo = MemoModel()
     mcan_obs, mcan_dig = canonical(memo)
@@ -460,8 +476,9 @@ def run(ctx):
     for label, ex in runs:
         if ex.nondeterminism:
             raise MachineryError("replay of a history reached a different key: %r" % ex.nondeterminism[:2])
-        second += ex.validate_seconds(expand_names=None, max_level=(1 if ctx.quick else None),
-                                      probe_levels=(2 if ctx.quick else None),
+        second += ex.validate_seconds(expand_names=getattr(ex, "expand_names", None),
+                                      max_level=(1 if ctx.quick else (2 if label == "depth4-full" else None)),
+                                      probe_levels=(2 if (ctx.quick or label == "depth4-full") else None),
                                       oracle=lambda k, r, orc=ex.oracle: orc(k, r, second=True))
         if ex.key_conflicts:
             raise MachineryError("canonical key too coarse: %r" % ex.key_conflicts[:3])
@@ -477,7 +494,8 @@ def run(ctx):
     mprobe = [e.name for e in memo.events() if e.name.startswith("memo:sf:")]
     for label, ex in runs:
         items = sorted(ex.rep.items(), key=lambda kv: (len(kv[1]), kv[1]))
-        step = 1 if not ctx.quick else max(1, len(items) // 6)
+        # quick: a handful per run; thorough: up to ~300 histories per run, spread over all depths
+        step = max(1, len(items) // (6 if ctx.quick else 300))
         hs = [h for _, h in items[::step] if h]
         if ctx.quick:
             hs = hs[:8]
